@@ -48,8 +48,8 @@ CHECKS["C14"] = {
 NOT_APPLICABLE = {}
 
 CHECKS["C10"] = {
-    "groups": ["c10", "c13"],
-    "no_native_replay": ["H10g_PckExtensions_ArbitraryDER"],
+    "groups": ["c10", "c13", "pki"],
+    "no_native_replay": ["H10g_PckExtensions_ArbitraryDER", "H10h_Verify_AnyMessage", "H10j_Verify_ArbitraryStubAnswers"],
     "quick": {"match": "^H10", "budget": 900},
     "thorough": {"match": "^[HT]10", "budget": 3000, "query_timeout_ms": 120000},
     "what": "every public parsing / serialisation / validation entry point executed on untrusted input with all implicit panic "
